@@ -37,6 +37,10 @@ type Reply struct {
 	// Cut: the transfer of Body fails part-way (the peer announces len(Body) bytes and drops the connection before
 	// they are all sent). The exchange is a transport failure whatever the status and the headers say.
 	Cut bool `json:"cut,omitempty"`
+	// Announced > 0: the answer to a HEAD request. No body is sent (Body is empty); Announced is the size of the body the
+	// same request would be answered with under GET - what a server states as Content-Length in its answer to HEAD, if
+	// it states one.
+	Announced int `json:"announced,omitempty"`
 }
 
 // Capture expressions the generated programs may use (they match MakeReply's bodies).
@@ -58,6 +62,8 @@ func FaultApplies(def *Request, fault string) bool {
 		return !def.HasCaptureExpr(scengen.PostHeader, "X-Tok")
 	case FaultObjString:
 		return def.RespKind == "json" && !def.HasCaptureExpr(scengen.PostJsonpath, "$.obj.x")
+	case FaultBodyCut:
+		return def.Method != "HEAD" // the answer to HEAD has no body the transfer of which could fail
 	}
 	return true
 }
@@ -65,6 +71,15 @@ func FaultApplies(def *Request, fault string) bool {
 // MakeReply builds the response to a request of definition def. fresh makes the
 // values unique to the response (URL-safe characters only).
 func MakeReply(def *Request, fresh string, num int, fault string, status int) Reply {
+	r := makeReply(def, fresh, num, fault, status)
+	if def.Method == "HEAD" && !r.Closed {
+		// status line and headers as for any other method; the body is announced, not sent
+		r.Announced, r.Body, r.Cut = len(r.Body), "", false
+	}
+	return r
+}
+
+func makeReply(def *Request, fresh string, num int, fault string, status int) Reply {
 	if !FaultApplies(def, fault) {
 		fault = FaultNone
 	}
